@@ -182,6 +182,8 @@ int main(int argc, char **argv) {
                 {"wide-inline-if", {"{if case=\"1\"", " false=\"", " true=\"", "\"", "a{var:a}b", "}", "{var:a}"}, 6, 5, true},
                 {"loop-head", {"<loop", " set=\"b\"", " value=\"v\"", " value=\"loop1-value\"", " sort=\"ascend\"", " group=\"y\"", ">", "{var:v}", "{var:a} ", "</loop>", "\"", " "}, 5, 4, false},
                 {"svar", {"{svar:p", "{svar:q", ",", "{var:a}", "{raw:s}", "{math:1+1}", "{var:a", "}", " ", "{0}"}, 6, 5, false},
+                {"mixed-nesting", {"{svar:x", "{if case=\"1\" true=\"", "<if>", "<if case=\"1\">", "<loop>", "<loop value=\"v\">", "}", "<else", "<else>", "</if>", "</loop>", "{var:v}", "\""}, 6, 6, false},
+                {"many-sub-tags", {"{if case=\"1\"", "{if case=\"0\"", " true=\"@MANY@\"", " false=\"@MANY@\"", " true=\"{var:b}\"", " false=\"{var:b}\"", "\"", "}"}, 5, 4, false},
             };
             const int mk = atoi(a.get("micro", "0").c_str());
             static std::vector<Alphabet> mal;
@@ -189,7 +191,16 @@ int main(int argc, char **argv) {
             for (auto &m : micros) {
                 Alphabet al;
                 for (auto &t : m.toks) {
-                    al.tokens.push_back(T(t.c_str()));
+                    std::string tt = t;
+                    const size_t at = tt.find("@MANY@");
+                    if (at != std::string::npos) {
+                        std::string many;
+                        for (int k = 0; k < 257; k++) { // one more than an 8-bit count of sub-tags holds
+                            many += "{var:a}";
+                        }
+                        tt.replace(at, 6, many);
+                    }
+                    al.tokens.push_back(T(tt.c_str()));
                 }
                 if (m.filler) {
                     al.tokens.push_back(Text(65540, 'y'));
